@@ -131,6 +131,8 @@ impl Cfg {
 pub struct DeliveryRec {
     /// global delivery sequence number of the first hand-over
     pub first_seq: usize,
+    /// the receiver's membership stint (see `Client::stint`) at the first hand-over
+    pub first_stint: u32,
     pub count: usize,
     pub first_step: usize,
     /// client state when first handed over
@@ -173,6 +175,10 @@ pub struct Client {
     pub pending_props: Vec<usize>,
     /// proposals held pending, per state (a rollback restores the queue of that state)
     pub props_by_state: HashMap<StateKey, Vec<usize>>,
+    /// membership stint: incremented every time the client notices its eviction; states reached
+    /// afterwards (after a re-invitation) belong to a new stint with fresh key material
+    pub stint: u32,
+    pub reached_stint: HashMap<StateKey, u32>,
     pub own_pending: Option<usize>,
     /// the own commit that was pending when the client left a state: a rollback to that state
     /// restores the group with that commit pending again
@@ -764,6 +770,8 @@ impl World {
                 entered_at: HashMap::new(),
                 pending_props: vec![],
                 props_by_state: HashMap::new(),
+                stint: 0,
+                reached_stint: HashMap::new(),
                 own_pending: None,
                 pending_by_state: HashMap::new(),
                 delivered: HashMap::new(),
@@ -883,6 +891,8 @@ impl World {
                 entered_at: HashMap::new(),
                 pending_props: vec![],
                 props_by_state: HashMap::new(),
+                stint: 0,
+                reached_stint: HashMap::new(),
                 own_pending: None,
                 pending_by_state: HashMap::new(),
                 delivered: HashMap::new(),
@@ -1000,8 +1010,12 @@ impl World {
             None
         };
         let c = &mut self.clients[i];
-        if state == Some(GroupState::Inactive) && c.evicted_at.is_none() && c.cur.is_some() {
-            c.evicted_at = Some(step);
+        if state == Some(GroupState::Inactive) && c.cur.is_some() {
+            // (noticed now: what follows after a re-invitation is a new stint)
+            c.stint += 1;
+            if c.evicted_at.is_none() {
+                c.evicted_at = Some(step);
+            }
         }
         if key != c.cur {
             if let Some(old) = &c.cur {
@@ -1019,6 +1033,8 @@ impl World {
             if let Some(k) = &key {
                 c.reached.insert(k.clone());
                 c.entered_at.insert(k.clone(), step);
+                let st = c.stint;
+                c.reached_stint.entry(k.clone()).or_insert(st);
             }
             c.cur = key;
         }
@@ -1489,11 +1505,32 @@ impl World {
                     return Ok(());
                 };
                 // next spare(s) that were never invited
-                let want = 1 + (*extra).min(1) as usize;
-                let spares: Vec<usize> = (self.first_spare..self.end_spare)
+                let want = 1 + (*extra % 2) as usize;
+                let mut spares: Vec<usize> = (self.first_spare..self.end_spare)
                     .filter(|i| !self.invited.contains(i) && self.clients[*i].mdk.is_some())
                     .take(want)
                     .collect();
+                if *extra >= 2 {
+                    // re-invite somebody who was removed (or left) and has processed it: the adder
+                    // no longer lists it, its own copy of the group is inactive
+                    let mine = self.local_members(m);
+                    let back: Option<usize> = (0..self.end_spare).find(|&i| {
+                        Some(i) != self.reference
+                            && Some(i) != self.twin.map(|(k, _)| k)
+                            && i != m
+                            && self.clients[i].mdk.is_some()
+                            && self.clients[i].cur.is_none()
+                            && self.clients[i].evicted_at.is_some()
+                            && self.group_state(i) == Some(GroupState::Inactive)
+                            && !mine.contains(&self.clients[i].pk_hex())
+                            && !self.welcomes.iter().any(|w| w.to == i && !w.answered)
+                            && self.side.as_ref().map(|s| s.side_only != Some(i)).unwrap_or(true)
+                    });
+                    if let Some(b) = back {
+                        spares = vec![b];
+                        self.count("op:add_members:re-invitation-of-a-removed-member");
+                    }
+                }
                 if spares.is_empty() {
                     return Ok(());
                 }
@@ -2622,6 +2659,7 @@ impl World {
         {
             let restarts = self.clients[m].restarts.len();
             let c = &mut self.clients[m];
+            let stint_now = c.stint;
             let reached = base.as_ref().map(|b| c.reached.contains(b)).unwrap_or(true);
             let max_epoch = c.reached.iter().map(|k| k.epoch).max().unwrap_or(0);
             let at_base = base.is_some() && base == before_key;
@@ -2633,6 +2671,7 @@ impl World {
                 })
                 .or_insert(DeliveryRec {
                     first_seq: self.delivery_seq,
+                    first_stint: stint_now,
                     count: 1,
                     first_step: step,
                     first_state: before_key.clone(),
